@@ -36,6 +36,21 @@ static int verif_select(int n, fd_set *rd, fd_set *wr, fd_set *ex, struct timeva
 #undef main
 #undef dprintf
 
+/* src/proxy-msg.c is compiled into this translation unit too (the archive member of the library is then not linked),
+   unmodified except for ONE pinned libc behaviour: vbi_proxy_msg_handle_read() looks at a STALE errno after a recv() that
+   returned 0 (`else if (errno == EAGAIN) *pBlocked = TRUE`); POSIX leaves errno unspecified after a successful call and
+   under ASan its value depends on allocator internals.  verif_recv() sets it to EAGAIN whenever recv() returns 0, which
+   makes the output a function of the op lines. */
+static ssize_t verif_recv(int fd, void *buf, size_t len, int flags)
+{
+	ssize_t r = recv(fd, buf, len, flags);
+	if (r == 0) errno = EAGAIN;
+	return r;
+}
+#define recv verif_recv
+#include "src/proxy-msg.c"
+#undef recv
+
 #include "proxy_fakecap.h"
 
 /* ---- fake clock / alarm (link-level interposition; also used by src/proxy-msg.c inside the library) ---- */
@@ -63,6 +78,7 @@ typedef struct {
 	int accepted;
 	uint8_t *log; size_t logn;	/* bytes received from the daemon, not yet printed */
 	int eof;			/* daemon closed the connection */
+	int rdshut;			/* `shutrd`: the client did shutdown(SHUT_RD); it reads nothing any more */
 } hclient;
 static hclient hc[MAXC];
 static int nhc;
@@ -75,7 +91,7 @@ static void drain(hclient *c)
 {
 	for (;;) {
 		uint8_t buf[65536]; ssize_t n;
-		if (c->fd < 0 || c->eof) return;
+		if (c->fd < 0 || c->eof || c->rdshut) return;
 		n = recv(c->fd, buf, sizeof buf, MSG_DONTWAIT);
 		if (n > 0) {
 			if (c->logn + (size_t) n > LOGCAP) { fprintf(stderr, "harness: client log overflow\n"); exit(3); }
@@ -307,6 +323,13 @@ static int do_op(void)
 		if (h_ntok != 2 || !get_handle(1, &c)) { printf("rej parse\n"); return 0; }
 		if (!c || c->fd < 0) { printf("rej noclient\n"); return 0; }
 		drain(c); close(c->fd); c->fd = -1; printf("ok\n"); return 0;
+	}
+	if (H_IS(0, "shutrd")) {
+		/* the client stops reading: every later send() of the daemon on this connection fails with EPIPE, but the daemon
+		   sees no end-of-file (the client's sending direction stays open) */
+		if (h_ntok != 2 || !get_handle(1, &c)) { printf("rej parse\n"); return 0; }
+		if (!c || c->fd < 0 || c->rdshut) { printf("rej noclient\n"); return 0; }
+		drain(c); shutdown(c->fd, SHUT_RD); c->rdshut = 1; printf("ok\n"); return 0;
 	}
 	if (H_IS(0, "recv")) {
 		if (h_ntok != 2 || !get_handle(1, &c)) { printf("rej parse\n"); return 0; }
